@@ -23,6 +23,7 @@ from common import spec, cfgpath
 NAMES = {'prefix': 'secret_token', 'infix': 'my_secret_key', 'suffix': 'db_secret', 'exact': 'secret', 'none': 'api_token',
          'upper': 'SECRET_UPPER', 'similar': 'secre_t'}
 KEYMARK = 'KEYMARK9d41'
+MIDMARK = 'MIDMARK5b1e'      # value of a secret-named resource of an INTERMEDIATE application (meta mounted two levels deep)
 
 
 class ObjWithRepr(object):
@@ -132,15 +133,21 @@ def build(rec, markers):
         routes.append(('/sub', Application([('/inner', lambda: Response('inner'))], resources={'inner_secret': 'INNERMARK77'})))
     meta_entry = ('/_meta', MetaApplication())
     depth = rec['depth']
+    mid_kw = {}
+    if rec.get('_variant', 0) % 2 == 0:
+        # the application BETWEEN the serving one and the meta application owns a secret and a context processor that puts
+        # it into every render context below it
+        from clastic.middleware.context import ContextProcessor as _CP
+        mid_kw = {'resources': {'mid_secret_token': MIDMARK}, 'middlewares': [_CP(required=['mid_secret_token'])]}
     if depth == 0:
         app = Application(routes + [meta_entry], resources=res, middlewares=mws)
         prefix = '/_meta/'
     elif depth == 1:
-        inner = Application([meta_entry])
+        inner = Application([meta_entry], **mid_kw)
         app = Application(routes + [('/a', inner)], resources=res, middlewares=mws)
         prefix = '/a/_meta/'
     else:
-        inner = Application([('/b/', Application([meta_entry]))])
+        inner = Application([('/b/', Application([meta_entry]))], **mid_kw)
         app = Application(routes + [('/a', inner)], resources=res, middlewares=mws)
         prefix = '/a/b/_meta/'
     return app, prefix
@@ -200,7 +207,7 @@ def project(rec, markers, status, body, is_json):
         elif listed:
             how = 'listed-without-value'
         res.append({'nc': r['nc'], 'how': how, 'leak': leak})
-    keyleak = any(KEYMARK in v for v in vs)
+    keyleak = any(KEYMARK in v or MIDMARK in v for v in vs)
     inline_ok = True
     if 'brokenrepr' in rec['mws']:
         inline_ok = any('repr of this middleware is broken' in v for v in vs)
@@ -262,7 +269,7 @@ def check(run):
             if o['status'] != 200:
                 sig = 'meta-page-status:%s:%s' % (o['status'], r_['_rec']['view'])
             elif o['keyleak']:
-                sig = 'cookie-key-disclosed'
+                sig = 'cookie-key-or-intermediate-secret-disclosed:%s:depth%d' % (r_['_rec']['view'], r_['_rec']['depth'])
             elif any(x['leak'] and x['nc'] in ('prefix', 'infix', 'suffix', 'exact') for x in o['res']):
                 sig = 'secret-resource-disclosed:%s%s' % (r_['_rec']['view'], ':via-context-processor' if 'ctxprocsecret' in r_['_rec']['mws'] else '')
             elif not o['inline_ok']:
